@@ -32,6 +32,7 @@ def main():
         print(inst or '')
         print('==', qn, 'paths', r.paths, 'time %.2f' % r.time_s, 'undecided:', r.undecided)
         if r.error: print(r.error)
+        if r.dead_ends: print('   dead ends (path, line):', r.dead_ends)
         for o, res in r.obls:
             print('   %-45s p%-3d %-9s %s %.3fs %s' % (o.name, o.path, res['verdict'], res['backend'], res['time_s'], o.note))
             if res['verdict'] == 'refuted' and res.get('model') is not None:
